@@ -97,7 +97,7 @@ def compile_tu(path, repo, dev):
 
 def run(tier, seed, repo, build, out, flavours, zoo):
     t0 = time.time()
-    n = 320 if tier == "quick" else 3000
+    n = 320 if tier == "quick" else 1500
     rng = random.Random(seed * 7919 + 13)
     specs = list(zoo.values())
     seen = set(specs)
